@@ -30,6 +30,42 @@ def make_jobs(prop, r, n, quick):
     return jobs
 
 
+def mech_jobs(r, n):
+    """programs and root histories inside the vocabulary of Runner.tla (plain calls, batches, forgets) whose internal events
+    are recorded for mechanism-level trace validation"""
+    jobs = []
+    for i in range(n):
+        nfn = r.choice([2, 3, 3, 4])
+        p = progs.random_prog(r, nfn=nfn, features=("call", "call", "batch", "res", "raise", "bad"))
+        ops = []
+        for o in progs.random_ops(r, nfn, r.randint(4, 8), ctx=True, batch=True):
+            if o["op"] == "Call":
+                o["mod"] = "normal"
+            if o["op"] == "Batch" and o["how"] != "call_batch":
+                o["how"], o["rf"] = "map", True
+            ops.append(o)
+        jobs.append({"prog": p, "cfg": dict(BACKENDS[i % len(BACKENDS)]), "ops": ops, "amax": 2, "mech": True})
+    return jobs
+
+
+def validate_mech(rep, jobs, traces, wd):
+    payload = [{"cfg": {"prog": t["cfg"]["prog"]}, "ev": [e for ev in t["ev"] for e in ev.get("mech", [])]} for t in traces]
+    rej, vr = tlc.validate_traces("TraceRunnerMech", payload, wd, timeout=2400)
+    rep.add_tlc(vr, "mechanism trace validation TraceRunnerMech (recorded runner events are behaviours of Runner.tla)")
+    rep.cov["mechanism_traces"] = len(payload)
+    rep.cov["mechanism_events"] = sum(len(p["ev"]) for p in payload)
+    rep.cov["nonconformances"] = len(rej)
+    if rej:
+        print("NONCONFORMANCE: %d of %d recorded runs are not behaviours of Runner.tla (informational)" % (len(rej), len(payload)))
+        notes = []
+        for rj in rej[:5]:
+            evs = payload[rj["tid"] - 1]["ev"]
+            notes.append({"explained": rj["prefix"], "of": len(evs), "around": evs[max(0, rj["prefix"] - 3):rj["prefix"] + 2],
+                          "prog": payload[rj["tid"] - 1]["cfg"]["prog"]})
+            print("  explained=%d/%d around=%s" % (rj["prefix"], len(evs), json.dumps(evs[max(0, rj["prefix"] - 3):rj["prefix"] + 2])[:500]))
+        rep.cov["nonconformance_notes"] = notes
+
+
 def null_jobs(r, n):
     jobs = []
     for i in range(n):
@@ -96,6 +132,10 @@ def run(prop, tier):
                            "projection afterwards")
         rep.sample({"prog": jobs[0]["prog"], "ops": jobs[0]["ops"][:4],
                     "events": [{k: v for k, v in e.items() if k != "mem"} for e in traces[0]["ev"][:4]]})
+        if prop in ("C10", "C02"):
+            mj = mech_jobs(r, 60 if quick else 600)
+            mt = common.run_jobs("runner_worker.py", mj, wd, timeout=2400)
+            validate_mech(rep, mj, mt, wd)
         if prop == "C02":
             run_values(rep, r, wd, quick)
         rep.assumptions += ["the reference semantics ProgSem.tla is the definition of 'what the program does'; generated bodies "
